@@ -175,7 +175,7 @@ def check(ctx):
         check_raw_sites(ctx, cfg)
         check_fixture(ctx, cfg)
         n = check_handover(ctx, cfg)
-        ctx.floor("C16.P", "raw ownership hand-overs (%s)" % cfg, n, 3)
+        ctx.floor("C16.P", "raw ownership hand-overs (%s)" % cfg, n, 1)
         # closure panics in boxed map / zip: trait-default bodies over Vec / Box iterators: no raw state (C15.K / C08.R)
         from . import c04
         c04.check_raw_writes(ctx, cfg)
